@@ -62,6 +62,7 @@ func runExtras(eng *Engine, id, tier string, seed int64, work string) []extraRes
 		res = append(res, checkRecovers(eng, id))
 	case "C11":
 		res = append(res, checkGuardedGlobals(eng))
+		res = append(res, runBoundedRace(eng, work, tier))
 	}
 	return res
 }
@@ -262,6 +263,58 @@ func runBoundedImages(eng *Engine, work, pkg, pkgDir string, prefixes []string) 
 		"oracle": "draw.Draw with Src (conversion helpers); dst.Set(p - src.Min + dst.Min, transformColor(src.At(p))) on a copy of the parent (TransformImageColor)",
 	}
 	r.Samples = append(r.Samples, map[string]interface{}{"bounded": "whole parent buffer after TransformImageColor / every pixel after ConvertImageTo* equals the definition, for every enumerated image and parallelism"})
+	return r
+}
+
+// runBoundedRace builds /verif/bounded/race_test.go.tmpl with the Go race detector (injected with -overlay) and runs
+// it in several fresh processes: first use of every lazily built table from eight goroutines across the colour
+// packages, and the image functions with several workers. A sample of schedules (bounded), not a proof.
+func runBoundedRace(eng *Engine, work, tier string) extraResult {
+	r := extraResult{Obligations: 1}
+	tmpl, err := os.ReadFile(filepath.Join(verifDir, "bounded", "race_test.go.tmpl"))
+	if err != nil {
+		tmpl, err = os.ReadFile("/verif/bounded/race_test.go.tmpl")
+	}
+	if err != nil {
+		r.Failures = append(r.Failures, extraFailure{Name: "bounded.race#setup", Reason: "harness template missing", Detail: err.Error()})
+		return r
+	}
+	f := filepath.Join(work, "bounded_race_test.go")
+	os.WriteFile(f, tmpl, 0o644)
+	overlay := map[string]map[string]string{"Replace": {filepath.Join(eng.repoDir, "vcgo_bounded_race_test.go"): f}}
+	ovb, _ := json.Marshal(overlay)
+	ovf := filepath.Join(work, "overlay_bounded_race.json")
+	os.WriteFile(ovf, ovb, 0o644)
+	bin := filepath.Join(work, "race.test")
+	cmd := exec.Command("go", "test", "-race", "-c", "-overlay", ovf, "-vet=off", "-o", bin, ".")
+	cmd.Dir = eng.repoDir
+	cmd.Env = goEnv()
+	if b, err := cmd.CombinedOutput(); err != nil {
+		// the race detector is part of the toolchain; if it cannot build here the stand-in is skipped, not failed
+		r.Obligations = 0
+		r.Samples = append(r.Samples, map[string]interface{}{"bounded": "race-detector build not available: " + firstLines(string(b), 3)})
+		return r
+	}
+	runs := 6
+	if tier == "thorough" {
+		runs = 40
+	}
+	for i := 0; i < runs; i++ {
+		c := exec.Command(bin, "-test.run", "^TestVcgoRace$", "-test.count=1", "-test.timeout=120s")
+		c.Dir = eng.repoDir
+		out, err := c.CombinedOutput()
+		if err != nil || strings.Contains(string(out), "DATA RACE") {
+			r.Failures = append(r.Failures, extraFailure{Name: "bounded.race#detector-silent", Reason: "the Go race detector reports a data race (or the run failed) on the real code",
+				Detail: firstLines(string(out), 40), Witness: true})
+			return r
+		}
+	}
+	r.Discharged = 1
+	r.Bounded = map[string]interface{}{
+		"name": "race detector over first use of the lazily built tables and the image workers", "label": "bounded (execution of the real code under the race detector, a sample of schedules)",
+		"domain": fmt.Sprintf("%d fresh processes x (8 goroutines x 500 first-use calls across srgb, adobergb, prophotorgb, displayp3; image linearise/encode/convert with parallelism 1,2,3,7,16)", runs),
+		"exhaustive": false, "evaluations": int64(runs), "checks": []string{"detector-silent"}, "oracle": "Go race detector",
+	}
 	return r
 }
 
